@@ -52,6 +52,8 @@ PROPS = {
  'over-long UDF symlink component': ('C10', 'UDF symlink target component of 255 characters raised ValueError'),
  'third and later sections of a very large file': ('C01', 'file of 2*0xfffff800+5 bytes (three sections): third section chained before the second, file read back 5 bytes short, directory held the name twice (mc/bigfile.py iso-2lim+5)'),
  'add_hard_link() links every section of a multi-extent file': ('C01', 'add_fp(0xfffff800+1 bytes); add_hard_link(joliet): the Joliet name read back 0xfffff800 bytes (mc/bigfile.py link)'),
+ 'honours platform_id for additional sections': ('C11', 'add_eltorito(A); add_eltorito(A, platform_id=1): section header platform 0 (thorough sigma11)'),
+ 'only a UDF name is stored as one piece': ('C01', 'add_fp(4 GiB + 2049 bytes, udf_path only): write_fp raised AttributeError (Inode has no orig_extent_loc) (mc/bigfile.py udf-only-4g)'),
  'resolve a relocated Rock Ridge directory through its link': ('C01', 'two depth-8 directories with the same Rock Ridge name in different parents: the second is missing from the Rock Ridge view (reloc-collide chain)'),
 }
 log = subprocess.run(['git', '-C', '/repo', 'log', '--reverse', '--format=%h\t%s', '1c3f835..HEAD'], stdout=subprocess.PIPE).stdout.decode().strip().splitlines()
